@@ -258,6 +258,12 @@ def check_property(prop, tier="quick", seed=0, jobs=4):
                 known_hits.append((kf[0], f)); continue
             violations.append((r["unit"], f))
         nfail = len([f for f in r["failures"] if prop in f["tags"] or "support" in f["tags"]])
+        # an obligation tagged only for other properties fails in this unit: after a failed assertion the verifier assumes it, so the
+        # clauses of this property in the same unit are proved only relative to it -- the unit is undecided for this property
+        # (exit 2, and the check falls back to the scenarios mapped to the unit), never reported as OK
+        foreign = [f for f in r["failures"] if not (prop in f["tags"] or "support" in f["tags"])]
+        if foreign and nfail == 0:
+            undecided.append("%s: an obligation of another property fails in this unit (%s): its clauses for %s hold only relative to it" % (r["unit"], ((foreign[0].get("clauses") or ["?"])[0])[:80], prop))
         obligations += len(mine)
         discharged += max(0, len(mine) - nfail)
         if prop == "C04" and r["summary"]:
